@@ -1,6 +1,7 @@
 import DroopProofs.QpqLow
 import DroopProofs.QpqSum
 import DroopProofs.QpqFig
+import DroopProofs.QpqExt
 import DroopProofs.CaseInit
 import Props.C01
 import Props.Driver
@@ -147,4 +148,17 @@ example : (qpqLoop rationalArith 20 (qpqStart rationalArith (initState rationalA
 example : caseOK { Driver.sample with rule := "qpq" } = true := by decide
 example : (runRuleSt (guardedArith 9 9) { Driver.sample with rule := "qpq" }).map (fun t => (t.crash, nEl t, nHop t))
     = some (none, 1, 0) := by decide +kernel
+end Droop.QPQ
+
+namespace Droop.QPQ
+/-- **C18 / C19 for QPQ**: the record only grows — the log of the state the count starts from (and, `ext_qpqBody`, of the state every
+    round starts from) is a suffix, newest first, of the log of whatever comes later; an interrupted count has logged a prefix of
+    what the full count logs -/
+theorem qpq_record_append_only (p g : Nat) (c : Case) (hr : c.rule = "qpq") (t : St Int)
+    (ht : runRuleSt (guardedArith p g) c = some t) : Ext (initState (guardedArith p g) c) t := by
+  unfold runRuleSt at ht
+  simp only [runRuleSt', hr] at ht
+  exact qpq_record_appendOnly (guardedArith p g) _ t ht
+
+theorem qpq_round_appends (p g : Nat) (q : QSt Int) : Ext q.s (qpqBody (guardedArith p g) q).1.s := ext_qpqBody _ q
 end Droop.QPQ
